@@ -1,4 +1,5 @@
 import VrpModel.Mirp
+import VrpModel.MirpGetters
 import Driver.Proto
 import Driver.GraphCmd
 /-! driver commands for the MIRP builder (C11, C12) -/
@@ -48,6 +49,33 @@ def cmdMirp : P String := do
   let r := go (Mirp.new size hor) ops []
   pure ("ok " ++ " ; ".intercalate r.2 ++ " | " ++ showMirp r.1)
 
-def mirpCmds : List (String × P String) := [("tw", cmdTw), ("mirp", cmdMirp)]
+/-- `mirp.getters <size> <horizon> <k> op… <strict> <choices>` → grid | high cost | seq V L | path pool -/
+def cmdMirpGetters : P String := do
+  let size ← pRat; let hor ← pRat
+  let ops ← pList pMOp
+  let strict ← pBool
+  let choices ← pList pNat
+  pEnd
+  let rec go (m : Mirp) (ops : List MOp) : Option Mirp :=
+    match ops with
+    | [] => some m
+    | op :: rest => match (m.step 100000 op).2 with
+      | .ok _ => go (m.step 100000 op).1 rest
+      | _ => none
+  match go (Mirp.new size hor) ops with
+  | none => pure "err:build"
+  | some m =>
+    let freqs := ops.filterMap fun op => match op with
+      | .port _ _ r c => some (absR (c / r))
+      | _ => none
+    let pick : Nat → List Nat → Nat := fun c cands =>
+      cands.getD ((choices.getD (c % (max choices.length 1)) 0) % (max cands.length 1)) 0
+    let seqS := match m.getSeqBased strict with
+      | none => "none"
+      | some I => s!"{I.V} {I.L} {showGraph I.g}"
+    let Pp := m.getPathBased pick
+    pure s!"ok {showRats m.arcGrid} | {showOpt showRat (m.highCost freqs)} | {seqS} | {showList (fun rt => showList toString rt) Pp.routes} | {showRats Pp.costs}"
+
+def mirpCmds : List (String × P String) := [("tw", cmdTw), ("mirp", cmdMirp), ("mirp.getters", cmdMirpGetters)]
 
 end Vrp.Drv
